@@ -216,7 +216,7 @@ func TestC04(t *testing.T) {
 					rt.Skip("no INVITE dialog")
 				}
 				d := cand[rapid.IntRange(0, len(cand)-1).Draw(rt, "dialog")]
-				code := rapid.SampledFrom([]int{100, 180, 183, 200, 200, 200, 404, 486, 603}).Draw(rt, "status")
+				code := gTxStatus(rt, "status")
 				toTag := ""
 				if code > 100 {
 					if d.TagB == "" {
@@ -486,7 +486,7 @@ func TestC04(t *testing.T) {
 				}
 				d := cand[rapid.IntRange(0, len(cand)-1).Draw(rt, "sub")]
 				d.TagB = c04GenIdent(rt, "tagB", small)
-				code := rapid.SampledFrom([]int{200, 202}).Draw(rt, "status")
+				code := rapid.IntRange(200, 299).Draw(rt, "status")
 				// a one-shot fetch is answered with Expires: 0; the final NOTIFY still belongs to the dialog
 				exp := rapid.SampledFrom([]string{"Expires: 3600\r\n", "Expires: 0\r\n", "", "Expires: 60\r\n"}).Draw(rt, "expires")
 				resp := buildResponse(d.SubReqAt, code, "OK", d.TagB, exp)
